@@ -467,3 +467,28 @@ func KindOf(p rc.P) string {
 	}
 	return "?"
 }
+
+// CellFor draws a cell for an existing column format.
+func CellFor(rt *rapid.T, c rc.Col) rc.Cell {
+	tw := valgen.TW{T: c.T}
+	if rc.FixedSize(c.T) == 0 {
+		switch c.T {
+		case rc.TIntN, rc.TUintN, rc.TFltN, rc.TMoneyN, rc.TDateN, rc.TTimeN, rc.TDateTimeN, rc.TBigDateTimeN, rc.TBigTimeN:
+			tw.W = int(c.MaxLen)
+		}
+	}
+	if valgen.IsNullable(c.T) && rapid.IntRange(0, 5).Draw(rt, "null") == 0 {
+		return rc.Cell{V: rc.V{T: c.T, W: tw.W, Null: true, Prec: int(c.Prec), Scal: int(c.Scale)}, TS: make([]byte, 8)}
+	}
+	maxLen := int(c.MaxLen)
+	if maxLen > 40 || maxLen == 0 {
+		maxLen = 40
+	}
+	v := valgen.GenFor(rt, tw, int(c.Prec), int(c.Scale), maxLen)
+	cell := rc.Cell{V: v.V}
+	if isTxtPtr(c.T) {
+		cell.TxtPtr = rapid.SliceOfN(rapid.Byte(), 0, 16).Draw(rt, "txtptr")
+		cell.TS = rapid.SliceOfN(rapid.Byte(), 8, 8).Draw(rt, "ts")
+	}
+	return cell
+}
